@@ -153,6 +153,8 @@ class LoopCtl:
                 return None
             symbolic = (isinstance(it, SBytes) and not z3.is_int_value(z3.simplify(z3.Length(it.t)))) or isinstance(it, SymRange)
             if not symbolic:
+                if spec is not None and (spec.each or spec.at_entry):
+                    return per_iteration_for(I, self, node, env, it, k, spec)
                 return run_concrete_for(I, node, env, it)
             if spec is None:
                 raise Unsupported(f"loop #{k} of {self.con.qualname} iterates a symbolic sequence and has no loop contract")
@@ -175,6 +177,70 @@ def run_concrete_for(I, node, env, it):
         except ContinueSig:
             continue
     I.exec_block(node.orelse, env)
+    return None
+
+
+def per_iteration_for(I, ctl, node, env, it, k, spec):
+    """Iterations verified one at a time: for element i either (a) the body runs from an arbitrary state
+    satisfying the invariants, the per-iteration clauses are checked on the effects of this iteration
+    alone and the path ends, or (b) the iteration is summarised (variables it assigns are havocked, the
+    invariants assumed) and the walk continues.  N+1 path families instead of a product."""
+    c = I.ctx
+    qn = ctl.con.qualname
+    items = list(I.iterate_concrete(it))
+    b0 = _inv_bindings(I, ctl, env, {})
+    for cid, lam in spec.at_entry:
+        f = eval_clause(I, lam, _select(lam, {**b0, "fx": list(c.fx)}), old_view=ctl.old_view())
+        c.check_obligation(f"{qn}::loop{k}.at_entry.{cid}", f)
+    _check_invs(I, ctl, spec, k, env, {}, "entry")
+    if node.orelse:
+        raise Unsupported("for-else in per-iteration mode")
+    todo = list(enumerate(items))
+    if spec.generic is not None and items:
+        todo = [(-1, None)]
+    for idx, item in todo:
+        verify_here = c.choose(2, f"loop{k}[{idx}]: summarise / verify") == 1
+        if verify_here and idx == -1:
+            _havoc(I, ctl, node, env, spec, k)
+            _assume_invs(I, ctl, spec, env, {})
+            item = spec.generic.fresh(I, f"item@loop{k}")
+        # state at the head of iteration idx: anything the earlier iterations may have produced
+        if idx > 0 or not verify_here:
+            pass
+        if verify_here:
+            if idx > 0:
+                _havoc(I, ctl, node, env, spec, k)
+                _assume_invs(I, ctl, spec, env, {})
+            mark = len(c.fx)
+            I.assign_target(node.target, item, env)
+            raised = None
+            try:
+                I.exec_block(node.body, env)
+            except (BreakSig, ContinueSig):
+                pass
+            except ReturnSig:
+                raise Unsupported("return inside a per-iteration loop")
+            except PyRaise as pr:
+                from .interp import exc_class
+
+                raised = pr.exc
+                if not any(issubclass(exc_class(raised), e) for e in spec.iteration_raises):
+                    c.check_obligation(f"{qn}::loop{k}.each.exc.undeclared:{exc_class(raised).__name__}", False)
+                    raise PathEnd()
+            fx_iter = list(c.fx[mark:])
+            b = _inv_bindings(I, ctl, env, {"fx": fx_iter, "raised": raised, "_index": idx})
+            for cid, lam in spec.each:
+                f = eval_clause(I, lam, _select(lam, b), old_view=ctl.old_view())
+                c.check_obligation(f"{qn}::loop{k}.each.{cid}", f)
+            if raised is None:
+                _check_invs(I, ctl, spec, k, env, {}, "preserved")
+            c.check_obligation(f"{qn}::__canary__", False)
+            raise PathEnd()
+        # summarised iteration
+    if items:
+        _havoc(I, ctl, node, env, spec, k)
+        _assume_invs(I, ctl, spec, env, {})
+    c.fx.append(("loop.summary", k, len(items)))
     return None
 
 
@@ -246,6 +312,10 @@ def _havoc(I, ctl, node, env, spec, k):
                     qn = f"{klass.__module__}.{klass.__qualname__}.{m}"
                     break
             con = REGISTRY.contracts.get(qn) if qn else None
+            if qn is None:
+                # not a method of the class: resolved by __getattr__ (an NCP command, dispatched through
+                # _command) -- its frame is _command's
+                con = REGISTRY.contracts.get(f"{ctl.con.self_spec.qualname}._command")
             if con is None or con.modifies_ is None:
                 fields |= set(ctl.con.self_spec.fields)
             else:
